@@ -119,7 +119,9 @@ func registerBuffer(e *Engine) {
 		}
 		n := c.Sub(buf.len, off)
 		var capT *Term
-		if buf.cap.isConst && buf.cap.cv == bufCap {
+		if ex.h != nil && ex.h.ExactCap {
+			capT = n
+		} else if buf.cap.isConst && buf.cap.cv == bufCap {
 			capT = c.Fresh("viewcap", BV(64))
 			ex.recordDraw(Draw{Name: "buffer_view_cap", Kind: "uint", Term: capT, Width: 64})
 			ex.addAxiom(c.And(c.Ule(n, capT), c.Ult(capT, c64(c, 1<<32))))
